@@ -116,10 +116,9 @@ def check_restricted(inp):
     p = alphabet_problem(logic, rt)
     if p:
         return Failure('restricted', inp, 'restricted alphabet of %s' % logic, list(rt), p)
-    for node in fm.all_nodes(r):
-        if fm.module_lang(node) != logic:
-            return Failure('restricted', inp, 'a %s object' % logic,
-                           'node %s of %s' % (type(node).__name__, type(node).__module__))
+    bad = fm.foreign_node(r, logic)
+    if bad:
+        return Failure('restricted', inp, 'a %s object' % logic, bad)
     if fm.structure(obj) != t:
         return Failure('restricted', inp, 'input formula unchanged', list(fm.structure(obj)))
     d = equivalent(t, rt, sc)
